@@ -368,7 +368,12 @@ impl Formula {
                         }
                     }
                 }
-                Node::Not(c) => out.push(self.redirect(i, *c)),
+                Node::Not(c) => {
+                    if let Node::Not(d) = &self.nodes[*c] {
+                        out.push(self.redirect(i, *d)); // !!x -> x keeps the meaning
+                    }
+                    out.push(self.redirect(i, *c));
+                }
                 _ => {}
             }
         }
@@ -1137,6 +1142,40 @@ fn shrink(entry: Entry, f: &Formula, seeds: &SeedSet, cfg: &Cfg, lim: &Limits, v
     (cur, best, tries)
 }
 
+/// (contains NOT, mentions an exclusive-group seed, mentions a missing seed) of an engine DAG
+fn store_features(store: &LineageStore, root: LineageId, seed_info: &dyn Fn(u32) -> (bool, bool)) -> (bool, bool, bool) {
+    let mut seen = BTreeSet::new();
+    let mut st = vec![root];
+    let (mut not, mut group, mut missing) = (false, false, false);
+    while let Some(id) = st.pop() {
+        if !seen.insert(id) {
+            continue;
+        }
+        match store.node(id) {
+            LineageNode::Not(c) => {
+                not = true;
+                st.push(*c);
+            }
+            LineageNode::And(c) | LineageNode::Or(c) => st.extend(c.iter().copied()),
+            LineageNode::Literal(sid) => {
+                let (g, m) = seed_info(sid.get());
+                group |= g;
+                missing |= m;
+            }
+            _ => {}
+        }
+    }
+    (not, group, missing)
+}
+
+/// Features of the DAG that the engine was actually handed, i.e. after LineageStore's own
+/// canonicalisation (!!x = x, x & !x = F, ...).
+fn engine_lineage_features(f: &Formula, seeds: &SeedSet) -> (bool, bool, bool) {
+    let e = build(f, seeds);
+    let store = e.store.lock().unwrap();
+    store_features(&store, e.root, &|raw| seeds.defs.iter().find(|d| d.raw == raw).map_or((false, false), |d| (d.group.is_some(), d.missing)))
+}
+
 fn report(ctx: &mut Ctx, entry: Entry, f: &Formula, seeds: &SeedSet, cfg: &Cfg, lim: &Limits, v: Viol) {
     let (mf, mv, tries) = shrink(entry, f, seeds, cfg, lim, v.clone());
     let mt = truth_of(&mf, seeds);
@@ -1146,15 +1185,16 @@ fn report(ctx: &mut Ctx, entry: Entry, f: &Formula, seeds: &SeedSet, cfg: &Cfg, 
         _ => "deadline_expiry",
     };
     // the lineage features are those of the minimised witness: what is left is needed
+    let feat = engine_lineage_features(&mf, seeds);
     let sig = json!({
         "kind": mv.kind,
         "entry": mv.entry,
         "status": mv.status,
         "reason": mv.reason,
         "fault": fault,
-        "lineage": if mf.has_not() { "negation" } else { "monotone" },
-        "exclusive_group": mf.uses_group(seeds),
-        "missing_seed": mf.uses_missing(seeds),
+        "lineage": if feat.0 { "negation" } else { "monotone" },
+        "exclusive_group": feat.1,
+        "missing_seed": feat.2,
     });
     let detail = json!({
         "minimal_witness": case_json(&mf, seeds, &mt),
@@ -1280,6 +1320,10 @@ fn phase_monotone4(ctx: &mut Ctx) {
     ctx.phase("all_monotone_functions_of_4_seeds", per_rep * reps);
     let mut done = 0u64;
     while let Some(kk) = ctx.next_case() {
+        if !ctx.within(0.35) {
+            ctx.count("phase_share_used_up.all_monotone_functions_of_4_seeds", 1);
+            break;
+        }
         let k = kk % per_rep;
         let fam = &fams[k as usize / k0s.len()];
         let k0 = k0s[k as usize % k0s.len()];
@@ -1312,6 +1356,10 @@ fn phase_bool3(ctx: &mut Ctx) {
     let reps = ctx.by_tier(1u64, 6);
     ctx.phase("all_functions_of_3_seeds", 256 * 3 * reps);
     while let Some(kk) = ctx.next_case() {
+        if !ctx.within(0.55) {
+            ctx.count("phase_share_used_up.all_functions_of_3_seeds", 1);
+            break;
+        }
         let k = kk % (256 * 3);
         let func = (k / 3) as u32;
         let model = k % 3;
@@ -1597,9 +1645,11 @@ fn phase_e2e(ctx: &mut Ctx) {
                     }
                 }
                 let lin_p = lin as f64 / den;
+                // features of this fact's own lineage DAG, not of the whole program
+                let feat = store_features(&store, lid, &|raw| raw_index.get(&raw).map_or((false, false), |i| (seeds.defs[*i].group.is_some(), false)));
                 let cause = if lin_p != p { "lineage_formula_differs_from_possible_worlds" } else { "hybrid_evaluation_of_a_correct_lineage" };
                 ctx.violation(
-                    json!({"kind": kind, "entry": "infer_new_facts_with_hybrid", "status": res.status(), "reason": res.reason().as_str(), "cause": cause, "negative_rule": has_neg, "exclusive_group": groups}),
+                    json!({"kind": kind, "entry": "infer_new_facts_with_hybrid", "status": res.status(), "reason": res.reason().as_str(), "cause": cause, "lineage": if feat.0 { "negation" } else { "monotone" }, "exclusive_group": feat.1}),
                     json!({"case": cj, "config": cfg.json(&tr), "fact": show_f(&fact), "true_probability": p, "probability_of_the_lineage_formula": lin_p, "result": format!("{:?}", res)}),
                 );
                 break;
@@ -1644,7 +1694,14 @@ fn phase_config_edges(ctx: &mut Ctx) {
         let mut r = ctx.rng(k % per);
         let n = r.range(2, 6);
         let seeds = gen_seeds(&mut r, n, k % per == 5, true, false);
-        let f = if k % per >= 3 { gen_dag(&mut r, n, true, false) } else { gen_dnf(&mut r, n) };
+        let f = if k % per == 3 {
+            // exclusive-or: certainly non-monotone, so the exact (SDD) stage is certainly reached
+            Formula { nodes: vec![Node::Lit(0), Node::Lit(1), Node::Not(0), Node::Not(1), Node::And(vec![0, 3]), Node::And(vec![1, 2]), Node::Or(vec![4, 5])], root: 6 }
+        } else if k % per > 3 {
+            gen_dag(&mut r, n, true, false)
+        } else {
+            gen_dnf(&mut r, n)
+        };
         let t = truth_of(&f, &seeds);
         let e = build(&f, &seeds);
         let mut hc = HybridConfig { threshold: t.lo, ..HybridConfig::default() };
@@ -1679,7 +1736,7 @@ fn phase_config_edges(ctx: &mut Ctx) {
                     if valid {
                         ctx.nontrivial(hash_str(&format!("{}|{}", cj, name)));
                         if let Some(kind) = check_result(&res, &t, hc.threshold) {
-                            ctx.violation(json!({"kind": kind, "entry": "evaluate_hybrid", "config": name, "status": res.status(), "reason": res.reason().as_str()}), json!({"case": cj, "config_edge": name, "clock": clock_kind, "result": format!("{:?}", res)}));
+                            ctx.violation(json!({"kind": kind, "entry": "evaluate_hybrid", "status": res.status(), "reason": res.reason().as_str()}), json!({"case": cj, "config_edge": name, "clock": clock_kind, "result": format!("{:?}", res)}));
                             break;
                         }
                     } else if !matches!(res, HybridProbabilityResult::NeedsExact { .. }) {
